@@ -1,12 +1,1963 @@
-//! C15 — monitor not built yet (stub so that the registry is complete).
+//! C15 — the NULL-dereference check (CWE476) flags exactly the unchecked flows of return values
+//! of configured allocation functions (programs in which the value flows only through registers).
+//!
+//! Monitor shape: the real module is driven through its public entry (`CWE_MODULE.run`) behind the same
+//! pipeline the CLI builds (normalize, CFG, function signatures, pointer inference with the shipped
+//! `Memory` configuration, shipped `CWE476` configuration). Next to it an explicit-state search written
+//! from the property statement decides, per source call site, whether a sink state is reachable.
+//!
+//! Reference semantics (`Model::search`): states `(block, set of tainted variables)`, started at the return
+//! site of every call to a configured symbol with the declared return registers tainted; assignments taint
+//! the target iff an input is tainted, a load result is untainted, overwritten => untainted; a conditional
+//! jump (or its fall-through partner) whose condition reads a tainted variable ends the path; sinks: load or
+//! store whose address reads a tainted variable, extern call with a tainted declared parameter, internal or
+//! indirect call with a tainted parameter register of the applicable calling convention, return with a
+//! tainted return register when the sub has an internal caller with a return site; at calls the taint of
+//! registers that are not callee-saved is dropped; a path passes an internal call only if the callee can return.
+//!
+//! Two further searches are *discriminators* for known findings, not oracles (see the end of `check_normalized`):
+//! * `lower bound`: the same search in which a conditional jump additionally ends the path when its
+//!   condition reads any variable that is tainted in *some* path-wise state at that block end. Every
+//!   evaluation order of a union-merging fixpoint must find at least these sources.
+//! * `merged`: union-merge at joins, blocks in topological order; exact for the implementation whenever the
+//!   part of the interprocedural graph reachable from the source is acyclic.
+
 use crate::core::*;
+use crate::irb::*;
+use crate::prng::Rng;
+use cwe_checker_lib::analysis::graph::get_program_cfg_with_logs;
+use cwe_checker_lib::intermediate_representation::*;
+use cwe_checker_lib::pipeline::AnalysisResults;
+use cwe_checker_lib::utils::log::CweWarning;
+use serde_json::{json, Value};
+use std::collections::{BTreeMap, BTreeSet, HashSet};
+use std::sync::OnceLock;
 
 pub fn info() -> CheckInfo {
     CheckInfo {
         id: "C15",
-        rule: "(monitor not built yet)",
-        assumptions: &[],
-        run: |_cfg| Report::new(),
-        replay: |_cfg, _case| Report::new(),
+        rule: "random x86-64-style programs (1-3 subs, 1-3 calls to symbols of the shipped CWE476 symbol list; register copies/arithmetic/sub-register casts/flags/temporaries, loads and stores through tainted and untainted addresses, conditional jumps on tainted and untainted conditions in both polarities, overwrites, loops, indirect jumps, extern calls with declared register/sub-register/stack parameters under two calling conventions, internal calls (also recursive, callee annotated with the second convention, returning or not), indirect calls, calls without return site, returns to internal callers; plus two template workloads: diamond joins with a check after the join, and a 'park the value in one register across one call' template over all call kinds and both conventions) normalised and analysed by the real pipeline (CFG, function signatures, pointer inference with the shipped Memory configuration, CWE476 with the shipped configuration); per source call site the warning set is compared with an explicit-state path-wise search written from the statement; also: every warning names a source call site, its address and symbol, at most one warning per source, and the reported access is a sink that the reference search reaches from that source. non-trivial = a program in which at least one source has a reachable sink, a killing check or a taint drop at a call; distinct = hash of the normalised program; evaluations = source call sites decided",
+        assumptions: &[
+            "the oracle is evaluated on the normalised program (the program the check sees); that normalisation preserves behaviour is property C10",
+            "domain guard of the statement ('flows only through registers'): stores whose value is tainted in some path-wise state are rewritten by the generator to store a constant; a program that still stores a tainted value after normalisation is counted inconclusive",
+            "the standard calling convention of the project is the one registered as '__stdcall' (System V); '__fastcall' (Microsoft x64 register set) is the second convention; indirect calls use the standard one, internal calls and returns the one annotated at the callee / returning sub",
+            "internal callees whose Return instruction is unreachable from their entry are outside the decided domain (the statement does not say whether such a callee 'returns'): inconclusive",
+            "temporaries are block-local; blocks end with at most [CBranch, Branch]; no CALLOTHER jumps (no CFG edges by a documented TODO)",
+            "known-finding discriminators: c15-call-without-return-site = the source is not reported and the reference search finds no sink once extern/indirect calls without return site are not counted as sinks; c15-join-merge = the source is not reported, the reference search finds a sink, and the union-merging variant explains the miss (acyclic region: the exact merged, topologically ordered variant does not reach a sink; cyclic region: the lower-bound search, in which a conditional jump also ends a path when its condition reads a variable tainted in any path-wise state at that block end, does not reach a sink); c15-pi-panic-nested-parameter-without-parent-object = the pointer inference (a prerequisite, not the check) panics with 'Abstract object does not exist' in pointer_inference/state/mod.rs",
+            "verdicts on the release profile",
+        ],
+        run,
+        replay,
     }
+}
+
+// ---------------------------------------------------------------------------------------------
+// Configuration (shipped file, compiled in so that the module does not depend on the working dir)
+
+fn shipped_config() -> &'static Value {
+    static CFG: OnceLock<Value> = OnceLock::new();
+    CFG.get_or_init(|| serde_json::from_str(include_str!("/repo/src/config.json")).expect("shipped config.json parses"))
+}
+
+fn configured_symbols() -> &'static BTreeSet<String> {
+    static S: OnceLock<BTreeSet<String>> = OnceLock::new();
+    S.get_or_init(|| {
+        shipped_config()["CWE476"]["symbols"]
+            .as_array()
+            .expect("CWE476.symbols")
+            .iter()
+            .filter_map(|v| v.as_str().map(|s| s.to_string()))
+            .collect()
+    })
+}
+
+// ---------------------------------------------------------------------------------------------
+// Generator
+
+const R8: &[&str] = &["RAX", "RAX", "RAX", "RBX", "RBX", "RCX", "RDX", "RSI", "RDI", "R12", "R10"];
+const FLAGS2: &[&str] = &["ZF", "CF"];
+
+pub fn cconv_ms() -> CallingConvention {
+    CallingConvention {
+        name: "__fastcall".to_string(),
+        integer_parameter_register: ["RCX", "RDX", "R8", "R9"].iter().map(|n| reg(n)).collect(),
+        float_parameter_register: Vec::new(),
+        integer_return_register: vec![reg("RAX")],
+        float_return_register: Vec::new(),
+        callee_saved_register: ["RBX", "RBP", "RDI", "RSI", "RSP", "R12", "R13", "R14", "R15"].iter().map(|n| reg(n)).collect(),
+    }
+}
+
+fn ext_sym(name: &str, params: Vec<Arg>, rets: &[&str], no_return: bool, cconv: &str) -> ExternSymbol {
+    ExternSymbol {
+        tid: tid(&format!("ext_{name}"), &format!("ext_{name}")),
+        addresses: vec!["UNKNOWN".to_string()],
+        name: name.to_string(),
+        calling_convention: Some(cconv.to_string()),
+        parameters: params,
+        return_values: rets.iter().map(|r| Arg::Register { expr: e_reg(r), data_type: None }).collect(),
+        no_return,
+        has_var_args: false,
+    }
+}
+
+fn areg(n: &str) -> Arg {
+    Arg::Register { expr: e_reg(n), data_type: None }
+}
+fn areg4(n: &str) -> Arg {
+    Arg::Register { expr: e_subpiece(0, 4, e_reg(n)), data_type: None }
+}
+
+/// Source symbols (all names are taken from the shipped CWE476 list; checked at run time).
+fn source_pool() -> Vec<ExternSymbol> {
+    vec![
+        ext_sym("malloc", vec![areg("RDI")], &["RAX"], false, "__stdcall"),
+        ext_sym("calloc", vec![areg("RDI"), areg("RSI")], &["RAX"], false, "__stdcall"),
+        ext_sym("realloc", vec![areg("RDI"), areg("RSI")], &["RAX"], false, "__stdcall"),
+        ext_sym("getenv", vec![areg("RDI")], &["RAX"], false, "__stdcall"),
+        ext_sym("strchr", vec![areg("RDI"), areg4("RSI")], &["RAX"], false, "__stdcall"),
+        ext_sym("tmpnam", vec![areg("RDI")], &["RAX", "RDX"], false, "__stdcall"),
+        ext_sym("fopen", vec![areg("RCX"), areg("RDX")], &["RAX"], false, "__fastcall"),
+    ]
+}
+
+fn other_pool() -> Vec<ExternSymbol> {
+    vec![
+        ext_sym("free", vec![areg("RDI")], &[], false, "__stdcall"),
+        ext_sym("memcpy", vec![areg("RDI"), areg("RSI"), areg("RDX")], &["RAX"], false, "__stdcall"),
+        ext_sym("rand", vec![], &["RAX"], false, "__stdcall"),
+        ext_sym("use_esi", vec![areg4("RSI")], &[], false, "__stdcall"),
+        ext_sym("ms_puts", vec![areg("RCX")], &["RAX"], false, "__fastcall"),
+        ext_sym("exit", vec![areg("RDI")], &[], true, "__stdcall"),
+        ext_sym("my_alloc", vec![areg("RDI")], &["RAX"], false, "__stdcall"),
+        ext_sym(
+            "stk_arg",
+            vec![areg("RDI"), Arg::Stack { address: e_reg_off("RSP", 8), size: ByteSize::new(8), data_type: None }],
+            &["RAX"],
+            false,
+            "__stdcall",
+        ),
+    ]
+}
+
+#[derive(Clone, Debug)]
+enum JK {
+    Branch,
+    CBranch,
+    Return,
+    Ext(usize),
+    Src(usize),
+    Int(usize),
+    Ind,
+    BranchInd,
+    DeadEnd,
+}
+
+struct Gen<'a> {
+    rng: &'a mut Rng,
+    ctr: u32,
+    pool: &'static [&'static str],
+}
+
+impl<'a> Gen<'a> {
+    fn t(&mut self, p: &str) -> Tid {
+        self.ctr += 1;
+        let a = 0x1000 + self.ctr * 3;
+        tid(&format!("{p}_{a:x}"), &format!("{a:08x}"))
+    }
+    fn r(&mut self) -> &'static str {
+        *self.rng.pick(self.pool)
+    }
+    fn r_other(&mut self, not: &str) -> &'static str {
+        for _ in 0..8 {
+            let r = self.r();
+            if r != not {
+                return r;
+            }
+        }
+        if not == "R10" {
+            "RBX"
+        } else {
+            "R10"
+        }
+    }
+    fn small(&mut self) -> i64 {
+        *self.rng.pick(&[1i64, 4, 8, 16, 24, -8, 0x20, 0x100])
+    }
+    /// 8-byte value expression over registers (and the block's 8-byte temporary if defined).
+    fn val(&mut self, t8: &Option<Variable>) -> Expression {
+        use BinOpType::*;
+        match self.rng.below(12) {
+            0..=2 => e_reg(self.r()),
+            3 | 4 => {
+                let c = self.small();
+                e_bin(*self.rng.pick(&[IntAdd, IntSub, IntAdd]), e_reg(self.r()), e_const(c, 8))
+            }
+            5 => {
+                let a = self.r();
+                let b = self.r_other(a);
+                e_bin(*self.rng.pick(&[IntAdd, IntSub, IntXOr, IntAnd, IntOr]), e_reg(a), e_reg(b))
+            }
+            6 => e_cast(CastOpType::IntZExt, 8, e_subpiece(0, 4, e_reg(self.r()))),
+            7 => {
+                let a = self.r();
+                let b = self.r_other(a);
+                e_bin(IntAdd, e_reg(a), e_bin(IntMult, e_reg(b), e_const(*self.rng.pick(&[4i64, 8]), 8)))
+            }
+            8 => e_const(self.rng.range_i64(0, 64), 8),
+            9 => match t8 {
+                Some(v) => e_var(v),
+                None => e_reg(self.r()),
+            },
+            10 => e_un(*self.rng.pick(&[UnOpType::Int2Comp, UnOpType::IntNegate]), e_reg(self.r())),
+            _ => e_bin(IntLeft, e_reg(self.r()), e_const(*self.rng.pick(&[1i64, 3]), 1)),
+        }
+    }
+    /// 1-byte expression (for flags and conditions).
+    fn cmp(&mut self) -> Expression {
+        use BinOpType::*;
+        match self.rng.below(8) {
+            0..=2 => e_bin(IntEqual, e_reg(self.r()), e_const(0, 8)),
+            3 => e_bin(IntNotEqual, e_reg(self.r()), e_const(0, 8)),
+            4 => {
+                let a = self.r();
+                let b = self.r_other(a);
+                e_bin(*self.rng.pick(&[IntLess, IntSLess, IntEqual]), e_reg(a), e_reg(b))
+            }
+            5 => e_bin(IntEqual, e_bin(IntAnd, e_reg(self.r()), e_const(7, 8)), e_const(0, 8)),
+            6 => e_bin(IntEqual, e_subpiece(0, 4, e_reg(self.r())), e_const(0, 4)),
+            _ => e_bin(IntSLess, e_reg(self.r()), e_const(*self.rng.pick(&[0i64, 1, 16]), 8)),
+        }
+    }
+    fn addr(&mut self) -> Expression {
+        match self.rng.below(8) {
+            0..=2 => e_reg(self.r()),
+            3 | 4 => {
+                let c = self.small();
+                e_reg_off(self.r(), c)
+            }
+            5 => {
+                let a = self.r();
+                let b = self.r_other(a);
+                e_bin(BinOpType::IntAdd, e_reg(a), e_bin(BinOpType::IntMult, e_reg(b), e_const(8, 8)))
+            }
+            _ => e_reg_off(*self.rng.pick(&["RSP", "RBP"]), *self.rng.pick(&[8i64, 16, -8, -16, 0])),
+        }
+    }
+    fn cond(&mut self, t1: &Option<Variable>) -> Expression {
+        match self.rng.below(10) {
+            0..=3 => e_var(&var(*self.rng.pick(FLAGS2), 1)),
+            4 | 5 => e_un(UnOpType::BoolNegate, e_var(&var(*self.rng.pick(FLAGS2), 1))),
+            6 => match t1 {
+                Some(v) => e_var(v),
+                None => self.cmp(),
+            },
+            _ => self.cmp(),
+        }
+    }
+    fn defs(&mut self, n: usize, t8: &mut Option<Variable>, t1: &mut Option<Variable>, out: &mut Vec<Term<Def>>) {
+        for _ in 0..n {
+            let t = self.t("def");
+            match self.rng.below(20) {
+                0..=3 => {
+                    let a = self.r();
+                    let b = self.r_other(a);
+                    out.push(assign(t, reg(a), e_reg(b)));
+                }
+                4..=6 => {
+                    let v = self.val(t8);
+                    out.push(assign(t, reg(self.r()), v));
+                }
+                7 => out.push(assign(t, reg(self.r()), e_const(self.rng.range_i64(0, 9), 8))),
+                8..=10 => {
+                    let c = self.cmp();
+                    out.push(assign(t, var(*self.rng.pick(FLAGS2), 1), c));
+                }
+                11..=13 => {
+                    let a = self.addr();
+                    out.push(load(t, reg(self.r()), a));
+                }
+                14 | 15 => {
+                    let a = self.addr();
+                    let v = if self.rng.chance(1, 4) { self.cmp() } else { self.val(t8) };
+                    out.push(store(t, a, v));
+                }
+                16 => {
+                    let v = tmp(&format!("$U{}", self.ctr), 8);
+                    let e = self.val(t8);
+                    out.push(assign(t, v.clone(), e));
+                    *t8 = Some(v);
+                }
+                17 => {
+                    let v = tmp(&format!("$U{}", self.ctr), 1);
+                    let e = self.cmp();
+                    out.push(assign(t, v.clone(), e));
+                    *t1 = Some(v);
+                }
+                18 => {
+                    // self-dependent update
+                    let a = self.r();
+                    let c = self.small();
+                    out.push(assign(t, reg(a), e_reg_off(a, c)));
+                }
+                _ => {
+                    // load into a temporary
+                    let v = tmp(&format!("$U{}", self.ctr), 8);
+                    let a = self.addr();
+                    out.push(load(t, v.clone(), a));
+                    *t8 = Some(v);
+                }
+            }
+        }
+    }
+}
+
+pub struct GenCfg {
+    pub max_blocks: usize,
+    pub max_defs: usize,
+    /// register pool (few registers: copies, checks and dereferences meet each other much more often)
+    pub pool: &'static [&'static str],
+    /// probability (out of 8) that a sub other than main is annotated with the second calling convention
+    pub fastcall_of_8: u64,
+}
+
+const R_DENSE: &[&str] = &["RAX", "RAX", "RBX", "RCX", "R12"];
+/// registers whose role differs between the two calling conventions (RDI/RSI: parameter vs callee-saved)
+const R_CCONV: &[&str] = &["RAX", "RAX", "RSI", "RDI", "RBX", "R10", "RCX"];
+
+/// Generate a raw (not yet normalised) project.
+pub fn gen_project(rng: &mut Rng, gc: &GenCfg) -> Project {
+    let mut g = Gen { rng, ctr: 0, pool: gc.pool };
+    // extern table
+    let mut srcs = source_pool();
+    g.rng.shuffle(&mut srcs);
+    srcs.truncate(g.rng.range_usize(1, 2));
+    let mut others = other_pool();
+    g.rng.shuffle(&mut others);
+    others.truncate(g.rng.range_usize(2, 5));
+    let n_subs = *g.rng.pick(&[1usize, 2, 2, 3]);
+    let names = ["main", "fa", "fb"];
+    let sub_tids: Vec<Tid> = (0..n_subs).map(|i| tid(&format!("sub_{}", names[i]), &format!("{:08x}", 0x100000 * (i + 1)))).collect();
+    let nblocks: Vec<usize> = (0..n_subs).map(|_| g.rng.range_usize(1, gc.max_blocks)).collect();
+    // jump plan
+    let mut plan: Vec<Vec<JK>> = Vec::new();
+    for s in 0..n_subs {
+        let n = nblocks[s];
+        let mut p = Vec::new();
+        for i in 0..n {
+            let last = i + 1 == n;
+            let k = match g.rng.below(22) {
+                0..=2 => JK::Branch,
+                3..=8 => JK::CBranch,
+                9..=11 => JK::Return,
+                12..=14 => JK::Ext(g.rng.usize_below(others.len())),
+                15 | 16 if n_subs > 1 => {
+                    // mostly another sub, sometimes recursion
+                    let mut c = g.rng.usize_below(n_subs);
+                    if c == s && !g.rng.chance(1, 4) {
+                        c = (s + 1) % n_subs;
+                    }
+                    JK::Int(c)
+                }
+                17 | 18 => JK::Ind,
+                19 if n >= 3 => JK::BranchInd,
+                20 => JK::DeadEnd,
+                _ => {
+                    if last {
+                        JK::Return
+                    } else {
+                        JK::CBranch
+                    }
+                }
+            };
+            p.push(k);
+        }
+        plan.push(p);
+    }
+    // sources
+    let n_src = g.rng.range_usize(1, 3);
+    let mut src_slots: BTreeMap<(usize, usize), usize> = BTreeMap::new();
+    for _ in 0..n_src {
+        let s = if g.rng.chance(2, 3) { 0 } else { g.rng.usize_below(n_subs) };
+        let b = g.rng.usize_below(nblocks[s]);
+        let which = g.rng.usize_below(srcs.len());
+        plan[s][b] = JK::Src(which);
+        src_slots.insert((s, b), which);
+    }
+    // build the subs
+    let mut subs = Vec::new();
+    for s in 0..n_subs {
+        let n = nblocks[s];
+        let btids: Vec<Tid> = (0..n).map(|i| tid(&format!("blk_{}_{i}", names[s]), &format!("{:08x}", 0x100000 * (s + 1) + 0x1000 * (i + 1)))).collect();
+        let mut blocks = Vec::new();
+        let mut pattern_blocks: BTreeSet<usize> = BTreeSet::new();
+        // first pass: decide targets so that the pattern blocks are known
+        let mut targets: Vec<(usize, usize, bool)> = Vec::new(); // (t1, t2, has_return_site)
+        for i in 0..n {
+            let pick = |rng: &mut Rng| -> usize {
+                if i + 1 < n && rng.chance(3, 4) {
+                    rng.range_usize(i + 1, n - 1)
+                } else {
+                    rng.usize_below(n)
+                }
+            };
+            let t1 = pick(g.rng);
+            let t2 = pick(g.rng);
+            let has_ret = match plan[s][i] {
+                JK::Src(_) => true,
+                _ => !g.rng.chance(1, 7),
+            };
+            if let JK::Src(_) = plan[s][i] {
+                if g.rng.chance(1, 2) {
+                    pattern_blocks.insert(t1);
+                }
+            }
+            targets.push((t1, t2, has_ret));
+        }
+        for i in 0..n {
+            let mut t8: Option<Variable> = None;
+            let mut t1v: Option<Variable> = None;
+            let mut defs = Vec::new();
+            let mut kind = plan[s][i].clone();
+            if pattern_blocks.contains(&i) {
+                // canonical shapes after an allocation: optional copy, NULL test into a flag
+                if g.rng.chance(1, 2) {
+                    let keep = *g.rng.pick(&["RBX", "R12", "RCX", "RDI"]);
+                    defs.push(assign(g.t("def"), reg(keep), e_reg("RAX")));
+                }
+                if g.rng.chance(3, 4) {
+                    let tested = *g.rng.pick(&["RAX", "RAX", "RBX", "R12"]);
+                    let op = *g.rng.pick(&[BinOpType::IntEqual, BinOpType::IntNotEqual]);
+                    defs.push(assign(g.t("def"), var("ZF", 1), e_bin(op, e_reg(tested), e_const(0, 8))));
+                }
+            }
+            let nd = g.rng.range_usize(0, gc.max_defs);
+            g.defs(nd, &mut t8, &mut t1v, &mut defs);
+            if pattern_blocks.contains(&i) && !matches!(kind, JK::Src(_)) && g.rng.chance(1, 2) {
+                kind = JK::CBranch;
+            }
+            let (t1, t2, has_ret) = targets[i];
+            let ret = if has_ret { Some(btids[t1].clone()) } else { None };
+            let mut jmps = Vec::new();
+            let mut indirect = Vec::new();
+            match kind {
+                JK::Branch => jmps.push(jmp(g.t("jmp"), Jmp::Branch(btids[t1].clone()))),
+                JK::CBranch => {
+                    let c = if pattern_blocks.contains(&i) && g.rng.chance(2, 3) {
+                        if g.rng.bool() {
+                            e_var(&var("ZF", 1))
+                        } else {
+                            e_un(UnOpType::BoolNegate, e_var(&var("ZF", 1)))
+                        }
+                    } else {
+                        g.cond(&t1v)
+                    };
+                    jmps.push(jmp(g.t("jmp"), Jmp::CBranch { target: btids[t1].clone(), condition: c }));
+                    jmps.push(jmp(g.t("jmp"), Jmp::Branch(btids[t2].clone())));
+                }
+                JK::Return => jmps.push(jmp(g.t("ret"), Jmp::Return(e_const(0, 8)))),
+                JK::Ext(k) => jmps.push(jmp(g.t("call"), Jmp::Call { target: others[k].tid.clone(), return_: ret })),
+                JK::Src(k) => jmps.push(jmp(g.t("call"), Jmp::Call { target: srcs[k].tid.clone(), return_: ret })),
+                JK::Int(c) => jmps.push(jmp(g.t("call"), Jmp::Call { target: sub_tids[c].clone(), return_: ret })),
+                JK::Ind => {
+                    let target = if g.rng.bool() { e_reg(g.r()) } else { e_const(0x400000 + g.rng.range_i64(0, 64) * 16, 8) };
+                    jmps.push(jmp(g.t("call"), Jmp::CallInd { target, return_: ret }));
+                }
+                JK::BranchInd => {
+                    jmps.push(jmp(g.t("jmp"), Jmp::BranchInd(e_reg(g.r()))));
+                    indirect.push(btids[t1].clone());
+                    if t2 != t1 {
+                        indirect.push(btids[t2].clone());
+                    }
+                }
+                JK::DeadEnd => (),
+            }
+            let mut b = blk(btids[i].clone(), defs, jmps);
+            b.term.indirect_jmp_targets = indirect;
+            blocks.push(b);
+        }
+        let mut st = sub(sub_tids[s].clone(), names[s], blocks);
+        if s > 0 && g.rng.chance(gc.fastcall_of_8, 8) {
+            st.term.calling_convention = Some("__fastcall".to_string());
+        }
+        subs.push(st);
+    }
+    let entry = sub_tids[0].clone();
+    let mut externs = srcs;
+    externs.extend(others);
+    let mut project = project_x64(program(subs, externs, Some(entry)));
+    project.calling_conventions.insert("__fastcall".to_string(), cconv_ms());
+    for n in ["R8", "R9", "R10", "R11", "R12", "R13", "R14", "R15"] {
+        project.register_set.insert(reg(n));
+    }
+    project
+}
+
+
+/// Template workload for the join situation: two arms move/copy/overwrite the value differently, the join block
+/// checks one register, the successors dereference / pass on one register. Optional back edges.
+pub fn gen_diamond(rng: &mut Rng) -> Project {
+    let mut g = Gen { rng, ctr: 0, pool: R_DENSE };
+    let mut srcs = source_pool();
+    g.rng.shuffle(&mut srcs);
+    srcs.truncate(1);
+    let free = ext_sym("free", vec![areg("RDI")], &[], false, "__stdcall");
+    let rand = ext_sym("rand", vec![], &["RAX"], false, "__stdcall");
+    let main_t = tid("sub_main", "00100000");
+    let top_t = tid("sub_top", "00200000");
+    let b: Vec<Tid> = (0..8).map(|i| tid(&format!("blk_main_{i}"), &format!("{:08x}", 0x100000 + 0x1000 * (i + 1)))).collect();
+    const CLEAN: &[&str] = &["RSI", "R10", "RDX"];
+    let clean_cond = |g: &mut Gen| -> Expression {
+        match g.rng.below(3) {
+            0 => e_var(&var("CF", 1)),
+            1 => e_bin(BinOpType::IntEqual, e_reg(*g.rng.pick(CLEAN)), e_const(0, 8)),
+            _ => e_bin(BinOpType::IntLess, e_reg(*g.rng.pick(CLEAN)), e_const(16, 8)),
+        }
+    };
+    let moves = |g: &mut Gen, n: usize, out: &mut Vec<Term<Def>>| {
+        for _ in 0..n {
+            let a = g.r();
+            let c = g.r_other(a);
+            match g.rng.below(8) {
+                0..=2 => out.push(assign(g.t("def"), reg(a), e_reg(c))),
+                3 => {
+                    // move: copy then clear the origin
+                    out.push(assign(g.t("def"), reg(a), e_reg(c)));
+                    out.push(assign(g.t("def"), reg(c), e_const(0, 8)));
+                }
+                4 => out.push(assign(g.t("def"), reg(a), e_const(g.rng.range_i64(0, 3), 8))),
+                5 => {
+                    let k = g.small();
+                    out.push(assign(g.t("def"), reg(a), e_reg_off(c, k)));
+                }
+                6 => out.push(load(g.t("def"), reg(*g.rng.pick(CLEAN)), e_reg_off(*g.rng.pick(&["RSP", "RBP"]), 16))),
+                _ => out.push(assign(g.t("def"), var("CF", 1), e_bin(BinOpType::IntLess, e_reg(*g.rng.pick(CLEAN)), e_const(5, 8)))),
+            }
+        }
+    };
+    let use_block = |g: &mut Gen, next: Option<Tid>, defs: &mut Vec<Term<Def>>, jmps: &mut Vec<Term<Jmp>>| {
+        let r = g.r();
+        match g.rng.below(7) {
+            0 | 1 => defs.push(load(g.t("def"), reg(*g.rng.pick(CLEAN)), e_reg_off(r, *g.rng.pick(&[0i64, 8, 16])))),
+            2 => defs.push(store(g.t("def"), e_reg(r), e_const(0, 8))),
+            3 => {
+                defs.push(assign(g.t("def"), reg("RDI"), e_reg(r)));
+                jmps.push(jmp(g.t("call"), Jmp::Call { target: free.tid.clone(), return_: next.clone() }));
+                return;
+            }
+            4 => {
+                defs.push(assign(g.t("def"), reg("RAX"), e_reg(r)));
+                jmps.push(jmp(g.t("ret"), Jmp::Return(e_const(0, 8))));
+                return;
+            }
+            5 => {
+                defs.push(assign(g.t("def"), reg("RSI"), e_reg(r)));
+                jmps.push(jmp(g.t("call"), Jmp::CallInd { target: e_reg("R10"), return_: next.clone() }));
+                return;
+            }
+            _ => (),
+        }
+        if let Some(n) = next {
+            jmps.push(jmp(g.t("jmp"), Jmp::Branch(n)));
+        }
+    };
+    let mut blocks = Vec::new();
+    // b0: source
+    let mut d0 = Vec::new();
+    let n0 = g.rng.usize_below(2);
+    moves(&mut g, n0, &mut d0);
+    blocks.push(blk(b[0].clone(), d0, vec![jmp(g.t("call"), Jmp::Call { target: srcs[0].tid.clone(), return_: Some(b[1].clone()) })]));
+    // b1: split
+    let mut d1 = Vec::new();
+    let n1 = g.rng.usize_below(3);
+    moves(&mut g, n1, &mut d1);
+    let c1 = clean_cond(&mut g);
+    blocks.push(blk(b[1].clone(), d1, vec![jmp(g.t("jmp"), Jmp::CBranch { target: b[2].clone(), condition: c1 }), jmp(g.t("jmp"), Jmp::Branch(b[3].clone()))]));
+    // arms
+    for arm in [2usize, 3] {
+        let mut d = Vec::new();
+        let n = g.rng.usize_below(4);
+        moves(&mut g, n, &mut d);
+        let j = if g.rng.chance(1, 6) {
+            jmp(g.t("call"), Jmp::Call { target: rand.tid.clone(), return_: Some(b[4].clone()) })
+        } else {
+            jmp(g.t("jmp"), Jmp::Branch(b[4].clone()))
+        };
+        blocks.push(blk(b[arm].clone(), d, vec![j]));
+    }
+    // join with a check
+    let mut d4 = Vec::new();
+    let n4 = g.rng.usize_below(2);
+    moves(&mut g, n4, &mut d4);
+    let checked = g.r();
+    let cond = match g.rng.below(6) {
+        0 | 1 => {
+            d4.push(assign(g.t("def"), var("ZF", 1), e_bin(BinOpType::IntEqual, e_reg(checked), e_const(0, 8))));
+            if g.rng.bool() {
+                e_var(&var("ZF", 1))
+            } else {
+                e_un(UnOpType::BoolNegate, e_var(&var("ZF", 1)))
+            }
+        }
+        2 | 3 => e_bin(*g.rng.pick(&[BinOpType::IntEqual, BinOpType::IntNotEqual]), e_reg(checked), e_const(0, 8)),
+        4 => clean_cond(&mut g),
+        _ => e_bin(BinOpType::IntLess, e_reg(checked), e_reg(*g.rng.pick(CLEAN))),
+    };
+    blocks.push(blk(b[4].clone(), d4, vec![jmp(g.t("jmp"), Jmp::CBranch { target: b[5].clone(), condition: cond }), jmp(g.t("jmp"), Jmp::Branch(b[6].clone()))]));
+    // users
+    for u in [5usize, 6] {
+        let mut d = Vec::new();
+        let mut j = Vec::new();
+        let n = g.rng.usize_below(2);
+        moves(&mut g, n, &mut d);
+        let next = match g.rng.below(6) {
+            0 => Some(b[1].clone()),
+            1 => Some(b[4].clone()),
+            2 | 3 => Some(b[7].clone()),
+            _ => None,
+        };
+        use_block(&mut g, next, &mut d, &mut j);
+        blocks.push(blk(b[u].clone(), d, j));
+    }
+    let mut d7 = Vec::new();
+    let mut j7 = Vec::new();
+    use_block(&mut g, None, &mut d7, &mut j7);
+    blocks.push(blk(b[7].clone(), d7, j7));
+    let main = sub(main_t.clone(), "main", blocks);
+    let top = sub(
+        top_t.clone(),
+        "top",
+        vec![
+            blk(tid("blk_top_0", "00201000"), vec![], vec![jmp(g.t("call"), Jmp::Call { target: main_t.clone(), return_: Some(tid("blk_top_1", "00202000")) })]),
+            blk(tid("blk_top_1", "00202000"), vec![], vec![jmp(g.t("ret"), Jmp::Return(e_const(0, 8)))]),
+        ],
+    );
+    let mut subs = vec![main];
+    if g.rng.chance(2, 3) {
+        subs.push(top);
+    }
+    let mut externs = srcs;
+    externs.push(free);
+    externs.push(rand);
+    let mut project = project_x64(program(subs, externs, Some(main_t)));
+    project.calling_conventions.insert("__fastcall".to_string(), cconv_ms());
+    project
+}
+
+
+/// Template workload for the calling-convention clauses: the value is parked in one register, a call of every
+/// kind (extern under either convention, internal callee under either convention, returning or not, indirect)
+/// follows, and the return site uses the parked register or the return register.
+pub fn gen_cconv_template(rng: &mut Rng) -> Project {
+    let mut g = Gen { rng, ctr: 0, pool: R_CCONV };
+    let mut srcs = source_pool();
+    g.rng.shuffle(&mut srcs);
+    srcs.truncate(1);
+    let others = other_pool();
+    let main_t = tid("sub_main", "00100000");
+    let fa_t = tid("sub_fa", "00200000");
+    let b: Vec<Tid> = (0..4).map(|i| tid(&format!("blk_main_{i}"), &format!("{:08x}", 0x100000 + 0x1000 * (i + 1)))).collect();
+    const PARK: &[&str] = &["RBX", "R12", "RDI", "RSI", "RCX", "RDX", "R8", "R9", "R10", "RBP", "R13"];
+    let park = *g.rng.pick(PARK);
+    let mut d1 = vec![assign(g.t("def"), reg(park), e_reg("RAX"))];
+    if g.rng.bool() {
+        d1.push(assign(g.t("def"), reg("RAX"), e_const(0, 8)));
+    }
+    if g.rng.chance(1, 3) {
+        let second = *g.rng.pick(PARK);
+        if second != park {
+            d1.push(assign(g.t("def"), reg(second), e_const(1, 8)));
+        }
+    }
+    let ret = if g.rng.chance(1, 8) { None } else { Some(b[2].clone()) };
+    let call = match g.rng.below(6) {
+        0 | 1 => Jmp::Call { target: fa_t.clone(), return_: ret },
+        2 => Jmp::CallInd { target: e_reg("R11"), return_: ret },
+        _ => Jmp::Call { target: g.rng.pick(&others).tid.clone(), return_: ret },
+    };
+    let used = if g.rng.chance(3, 4) { park } else { *g.rng.pick(PARK) };
+    let mut d2 = Vec::new();
+    let mut j2 = Vec::new();
+    match g.rng.below(5) {
+        0 | 1 => d2.push(load(g.t("def"), reg("R11"), e_reg_off(used, 8))),
+        2 => d2.push(store(g.t("def"), e_reg(used), e_const(0, 8))),
+        3 => {
+            d2.push(assign(g.t("def"), reg(*g.rng.pick(&["RDI", "RCX", "RSI"])), e_reg(used)));
+            j2.push(jmp(g.t("call"), Jmp::Call { target: g.rng.pick(&others).tid.clone(), return_: Some(b[3].clone()) }));
+        }
+        _ => {
+            d2.push(assign(g.t("def"), reg(*g.rng.pick(&["RAX", "RDX", "RCX"])), e_reg(used)));
+            j2.push(jmp(g.t("ret"), Jmp::Return(e_const(0, 8))));
+        }
+    }
+    let main_blocks = vec![
+        blk(b[0].clone(), vec![], vec![jmp(g.t("call"), Jmp::Call { target: srcs[0].tid.clone(), return_: Some(b[1].clone()) })]),
+        blk(b[1].clone(), d1, vec![jmp(g.t("call"), call)]),
+        blk(b[2].clone(), d2, j2),
+        blk(b[3].clone(), vec![], vec![]),
+    ];
+    let mut main = sub(main_t.clone(), "main", main_blocks);
+    // fa: returns (or not), calls main back in one variant so that main has an internal caller with return site
+    let fa0 = tid("blk_fa_0", "00201000");
+    let fa1 = tid("blk_fa_1", "00202000");
+    let fa_blocks = match g.rng.below(4) {
+        0 => vec![blk(fa0, vec![], vec![])],
+        1 => vec![
+            blk(fa0, vec![], vec![jmp(g.t("call"), Jmp::Call { target: main_t.clone(), return_: Some(fa1.clone()) })]),
+            blk(fa1, vec![], vec![jmp(g.t("ret"), Jmp::Return(e_const(0, 8)))]),
+        ],
+        _ => vec![blk(fa0, vec![assign(g.t("def"), reg("RAX"), e_const(0, 8))], vec![jmp(g.t("ret"), Jmp::Return(e_const(0, 8)))])],
+    };
+    let mut fa = sub(fa_t, "fa", fa_blocks);
+    if g.rng.bool() {
+        fa.term.calling_convention = Some("__fastcall".to_string());
+    }
+    if g.rng.chance(1, 4) {
+        main.term.calling_convention = Some("__fastcall".to_string());
+    }
+    let mut externs = srcs;
+    externs.extend(others);
+    let mut project = project_x64(program(vec![main, fa], externs, Some(main_t)));
+    project.calling_conventions.insert("__fastcall".to_string(), cconv_ms());
+    project
+}
+
+// ---------------------------------------------------------------------------------------------
+// Reference model
+
+fn vars_of(e: &Expression, out: &mut Vec<Variable>) {
+    match e {
+        Expression::Var(v) => out.push(v.clone()),
+        Expression::Const(_) | Expression::Unknown { .. } => (),
+        Expression::BinOp { lhs, rhs, .. } => {
+            vars_of(lhs, out);
+            vars_of(rhs, out);
+        }
+        Expression::UnOp { arg, .. } | Expression::Cast { arg, .. } | Expression::Subpiece { arg, .. } => vars_of(arg, out),
+    }
+}
+
+struct SubM<'a> {
+    term: &'a Term<Sub>,
+    blk_ix: BTreeMap<Tid, usize>,
+    param_mask: u64,
+    ret_mask: u64,
+    saved_mask: u64,
+    has_return_instr: bool,
+    can_return: bool,
+    called_with_return_site: bool,
+}
+
+#[derive(Clone, Debug)]
+pub struct SourceSite {
+    pub sub: usize,
+    pub blk: usize,
+    pub tid: String,
+    pub address: String,
+    pub symbol: String,
+    pub ret_blk: Option<usize>,
+    pub ret_mask: u64,
+}
+
+#[derive(Default, Clone, Debug)]
+pub struct Found {
+    /// sink tid -> kind, in discovery order
+    pub sinks: Vec<(String, &'static str)>,
+    pub kills_taken: u32,
+    pub kills_untaken: u32,
+    pub drops: u32,
+    pub overwrites: u32,
+    pub revisits: u32,
+    /// union of the taint masks at the end of each block (before the jumps)
+    pub m_end: Vec<u64>,
+    pub tainted_stores: Vec<Tid>,
+    pub states: usize,
+    pub capped: bool,
+    pub doubtful_callee: bool,
+    pub odd_shape: bool,
+}
+
+impl Found {
+    fn flagged(&self) -> bool {
+        !self.sinks.is_empty()
+    }
+    fn add_sink(&mut self, t: &Tid, kind: &'static str) {
+        let s = format!("{t}");
+        if !self.sinks.iter().any(|(x, _)| *x == s) {
+            self.sinks.push((s, kind));
+        }
+    }
+}
+
+pub struct Model<'a> {
+    project: &'a Project,
+    vars: BTreeMap<Variable, u32>,
+    subs: Vec<SubM<'a>>,
+    sub_ix: BTreeMap<Tid, usize>,
+    configured: &'a BTreeSet<String>,
+}
+
+struct Opts<'o> {
+    /// additionally end a path at a conditional jump whose condition reads one of these (per block end)
+    extra_kill: Option<&'o [u64]>,
+    /// extern/indirect calls without return site count as sinks
+    noret_call_sinks: bool,
+}
+
+const MAX_STATES: usize = 300_000;
+
+impl<'a> Model<'a> {
+    pub fn new(project: &'a Project, configured: &'a BTreeSet<String>) -> Result<Model<'a>, String> {
+        let mut all: Vec<Variable> = Vec::new();
+        let prog = &project.program.term;
+        for sub in prog.subs.values() {
+            for b in &sub.term.blocks {
+                for d in &b.term.defs {
+                    match &d.term {
+                        Def::Assign { var, value } => {
+                            all.push(var.clone());
+                            vars_of(value, &mut all);
+                        }
+                        Def::Load { var, address } => {
+                            all.push(var.clone());
+                            vars_of(address, &mut all);
+                        }
+                        Def::Store { address, value } => {
+                            vars_of(address, &mut all);
+                            vars_of(value, &mut all);
+                        }
+                    }
+                }
+                for j in &b.term.jmps {
+                    if let Jmp::CBranch { condition, .. } = &j.term {
+                        vars_of(condition, &mut all);
+                    }
+                }
+            }
+        }
+        for e in prog.extern_symbols.values() {
+            for a in e.parameters.iter().chain(e.return_values.iter()) {
+                match a {
+                    Arg::Register { expr, .. } => vars_of(expr, &mut all),
+                    Arg::Stack { .. } => (),
+                }
+            }
+        }
+        for c in project.calling_conventions.values() {
+            all.extend(c.integer_parameter_register.iter().cloned());
+            all.extend(c.integer_return_register.iter().cloned());
+            all.extend(c.callee_saved_register.iter().cloned());
+        }
+        let mut vars = BTreeMap::new();
+        for v in all {
+            let n = vars.len() as u32;
+            vars.entry(v).or_insert(n);
+        }
+        if vars.len() > 64 {
+            return Err("more than 64 variables".into());
+        }
+        let mut m = Model { project, vars, subs: Vec::new(), sub_ix: BTreeMap::new(), configured };
+        for (i, (t, sub)) in prog.subs.iter().enumerate() {
+            m.sub_ix.insert(t.clone(), i);
+            let cc = m.cconv_of(&sub.term.calling_convention)?;
+            let sm = SubM {
+                term: sub,
+                blk_ix: sub.term.blocks.iter().enumerate().map(|(k, b)| (b.tid.clone(), k)).collect(),
+                param_mask: m.mask_vars(&cc.integer_parameter_register),
+                ret_mask: m.mask_vars(&cc.integer_return_register),
+                saved_mask: m.mask_vars(&cc.callee_saved_register),
+                has_return_instr: sub.term.blocks.iter().any(|b| b.term.jmps.iter().any(|j| matches!(j.term, Jmp::Return(_)))),
+                can_return: false,
+                called_with_return_site: false,
+            };
+            m.subs.push(sm);
+        }
+        // internal callers with a return site
+        let mut called: Vec<bool> = vec![false; m.subs.len()];
+        for sub in prog.subs.values() {
+            for b in &sub.term.blocks {
+                for j in &b.term.jmps {
+                    if let Jmp::Call { target, return_: Some(_) } = &j.term {
+                        if let Some(ix) = m.sub_ix.get(target) {
+                            called[*ix] = true;
+                        }
+                    }
+                }
+            }
+        }
+        for (i, c) in called.into_iter().enumerate() {
+            m.subs[i].called_with_return_site = c;
+        }
+        // which subs can return: least fixpoint of "a Return block is reachable from the entry"
+        loop {
+            let mut changed = false;
+            for i in 0..m.subs.len() {
+                if !m.subs[i].can_return && m.return_reachable(i) {
+                    m.subs[i].can_return = true;
+                    changed = true;
+                }
+            }
+            if !changed {
+                break;
+            }
+        }
+        Ok(m)
+    }
+
+    fn cconv_of(&self, name: &Option<String>) -> Result<&'a CallingConvention, String> {
+        let std = self.project.calling_conventions.get("__stdcall").ok_or("no __stdcall convention")?;
+        Ok(match name {
+            Some(n) => self.project.calling_conventions.get(n).unwrap_or(std),
+            None => std,
+        })
+    }
+
+    fn bit(&self, v: &Variable) -> u64 {
+        match self.vars.get(v) {
+            Some(i) => 1u64 << i,
+            None => 0,
+        }
+    }
+    fn mask_vars(&self, vs: &[Variable]) -> u64 {
+        vs.iter().fold(0, |m, v| m | self.bit(v))
+    }
+    fn reads(&self, e: &Expression) -> u64 {
+        let mut v = Vec::new();
+        vars_of(e, &mut v);
+        self.mask_vars(&v)
+    }
+    fn names(&self, mask: u64) -> Vec<String> {
+        self.vars.iter().filter(|(_, i)| mask & (1u64 << **i) != 0).map(|(v, _)| v.name.clone()).collect()
+    }
+
+    /// Successor blocks by which control can continue inside the sub (ignoring taint).
+    fn flow_succs(&self, s: usize, b: usize) -> Vec<usize> {
+        let sm = &self.subs[s];
+        let blk = &sm.term.term.blocks[b];
+        let mut out = Vec::new();
+        let mut push = |t: &Tid| {
+            if let Some(i) = sm.blk_ix.get(t) {
+                out.push(*i);
+            }
+        };
+        for j in &blk.term.jmps {
+            match &j.term {
+                Jmp::Branch(t) | Jmp::CBranch { target: t, .. } => push(t),
+                Jmp::BranchInd(_) => blk.term.indirect_jmp_targets.iter().for_each(&mut push),
+                Jmp::Call { target, return_: Some(r) } => {
+                    if let Some(e) = self.project.program.term.extern_symbols.get(target) {
+                        if !e.no_return {
+                            push(r);
+                        }
+                    } else if let Some(c) = self.sub_ix.get(target) {
+                        if self.subs[*c].can_return {
+                            push(r);
+                        }
+                    }
+                }
+                Jmp::CallInd { return_: Some(r), .. } => push(r),
+                _ => (),
+            }
+        }
+        out
+    }
+
+    fn return_reachable(&self, s: usize) -> bool {
+        let sm = &self.subs[s];
+        if sm.term.term.blocks.is_empty() {
+            return false;
+        }
+        let mut seen = vec![false; sm.term.term.blocks.len()];
+        let mut stack = vec![0usize];
+        seen[0] = true;
+        while let Some(b) = stack.pop() {
+            if sm.term.term.blocks[b].term.jmps.iter().any(|j| matches!(j.term, Jmp::Return(_))) {
+                return true;
+            }
+            for n in self.flow_succs(s, b) {
+                if !seen[n] {
+                    seen[n] = true;
+                    stack.push(n);
+                }
+            }
+        }
+        false
+    }
+
+    /// All call sites of configured symbols.
+    pub fn sources(&self) -> Vec<SourceSite> {
+        let mut out = Vec::new();
+        for (s, sm) in self.subs.iter().enumerate() {
+            for (b, blk) in sm.term.term.blocks.iter().enumerate() {
+                for j in &blk.term.jmps {
+                    if let Jmp::Call { target, return_ } = &j.term {
+                        if let Some(e) = self.project.program.term.extern_symbols.get(target) {
+                            if self.configured.contains(&e.name) {
+                                let mut rm = 0;
+                                for a in &e.return_values {
+                                    if let Arg::Register { expr, .. } = a {
+                                        rm |= self.reads(expr);
+                                    }
+                                }
+                                out.push(SourceSite {
+                                    sub: s,
+                                    blk: b,
+                                    tid: format!("{}", j.tid),
+                                    address: j.tid.address.clone(),
+                                    symbol: e.name.clone(),
+                                    ret_blk: return_.as_ref().and_then(|r| sm.blk_ix.get(r).copied()),
+                                    ret_mask: rm,
+                                });
+                            }
+                        }
+                    }
+                }
+            }
+        }
+        out
+    }
+
+    /// Transfer of the defs of one block. Returns the mask at the block end.
+    fn block_defs(&self, blk: &Term<Blk>, mut m: u64, f: &mut Found) -> u64 {
+        for d in &blk.term.defs {
+            match &d.term {
+                Def::Assign { var, value } => {
+                    let b = self.bit(var);
+                    if self.reads(value) & m != 0 {
+                        m |= b;
+                    } else {
+                        if m & b != 0 {
+                            f.overwrites += 1;
+                        }
+                        m &= !b;
+                    }
+                }
+                Def::Load { var, address } => {
+                    if self.reads(address) & m != 0 {
+                        f.add_sink(&d.tid, "load");
+                    }
+                    let b = self.bit(var);
+                    if m & b != 0 {
+                        f.overwrites += 1;
+                    }
+                    m &= !b;
+                }
+                Def::Store { address, value } => {
+                    if self.reads(address) & m != 0 {
+                        f.add_sink(&d.tid, "store");
+                    }
+                    if self.reads(value) & m != 0 {
+                        f.tainted_stores.push(d.tid.clone());
+                    }
+                }
+            }
+            if m == 0 {
+                break;
+            }
+        }
+        m
+    }
+
+    /// What happens to a taint set at a call: Some((sink?, continuation)) where continuation = (return block, mask).
+    fn call_effect(&self, s: usize, j: &Term<Jmp>, m: u64, f: &mut Found, opts: &Opts) -> Option<(usize, u64)> {
+        let sm = &self.subs[s];
+        match &j.term {
+            Jmp::Call { target, return_ } => {
+                if let Some(e) = self.project.program.term.extern_symbols.get(target) {
+                    let mut pm = 0;
+                    for a in &e.parameters {
+                        if let Arg::Register { expr, .. } = a {
+                            pm |= self.reads(expr);
+                        }
+                        // stack parameters live in memory: never tainted in the domain of the statement
+                    }
+                    let effective_ret = if e.no_return { None } else { return_.as_ref() };
+                    if pm & m != 0 && (return_.is_some() || opts.noret_call_sinks) {
+                        f.add_sink(&j.tid, if return_.is_some() { "extern-param" } else { "extern-param-noreturnsite" });
+                    }
+                    let cc = self.cconv_of(&e.calling_convention).ok()?;
+                    let r = effective_ret.and_then(|r| sm.blk_ix.get(r))?;
+                    let kept = m & self.mask_vars(&cc.callee_saved_register);
+                    if kept != m {
+                        f.drops += 1;
+                    }
+                    Some((*r, kept))
+                } else if let Some(c) = self.sub_ix.get(target) {
+                    let cm = &self.subs[*c];
+                    if cm.param_mask & m != 0 {
+                        f.add_sink(&j.tid, "internal-param");
+                    }
+                    let r = return_.as_ref().and_then(|r| sm.blk_ix.get(r))?;
+                    if cm.has_return_instr != cm.can_return {
+                        f.doubtful_callee = true;
+                    }
+                    if !cm.can_return {
+                        return None;
+                    }
+                    let kept = m & cm.saved_mask;
+                    if kept != m {
+                        f.drops += 1;
+                    }
+                    Some((*r, kept))
+                } else {
+                    None
+                }
+            }
+            Jmp::CallInd { return_, .. } => {
+                let cc = self.cconv_of(&None).ok()?;
+                if self.mask_vars(&cc.integer_parameter_register) & m != 0 && (return_.is_some() || opts.noret_call_sinks) {
+                    f.add_sink(&j.tid, if return_.is_some() { "indirect-param" } else { "indirect-param-noreturnsite" });
+                }
+                let r = return_.as_ref().and_then(|r| sm.blk_ix.get(r))?;
+                let kept = m & self.mask_vars(&cc.callee_saved_register);
+                if kept != m {
+                    f.drops += 1;
+                }
+                Some((*r, kept))
+            }
+            _ => None,
+        }
+    }
+
+    /// Successor states of a taint set at the end of a block.
+    fn block_jumps(&self, s: usize, b: usize, m: u64, f: &mut Found, opts: &Opts, out: &mut Vec<(usize, u64)>) {
+        let sm = &self.subs[s];
+        let blk = &sm.term.term.blocks[b];
+        let extra = opts.extra_kill.map(|k| k[b]).unwrap_or(0);
+        let jmps = &blk.term.jmps;
+        if jmps.len() > 2 || (jmps.len() == 2 && !(matches!(jmps[0].term, Jmp::CBranch { .. }) && matches!(jmps[1].term, Jmp::Branch(_)))) {
+            f.odd_shape = true;
+            return;
+        }
+        let mut untaken_cond: Option<&Expression> = None;
+        for j in jmps {
+            match &j.term {
+                Jmp::CBranch { target, condition } => {
+                    untaken_cond = Some(condition);
+                    if self.reads(condition) & (m | extra) != 0 {
+                        if self.reads(condition) & m != 0 {
+                            f.kills_taken += 1;
+                        }
+                        continue;
+                    }
+                    if let Some(t) = sm.blk_ix.get(target) {
+                        out.push((*t, m));
+                    }
+                }
+                Jmp::Branch(target) => {
+                    if let Some(c) = untaken_cond {
+                        if self.reads(c) & (m | extra) != 0 {
+                            if self.reads(c) & m != 0 {
+                                f.kills_untaken += 1;
+                            }
+                            continue;
+                        }
+                    }
+                    if let Some(t) = sm.blk_ix.get(target) {
+                        out.push((*t, m));
+                    }
+                }
+                Jmp::BranchInd(_) => {
+                    for t in &blk.term.indirect_jmp_targets {
+                        if let Some(t) = sm.blk_ix.get(t) {
+                            out.push((*t, m));
+                        }
+                    }
+                }
+                Jmp::Return(_) => {
+                    if sm.called_with_return_site && sm.ret_mask & m != 0 {
+                        f.add_sink(&j.tid, "return");
+                    }
+                }
+                Jmp::Call { .. } | Jmp::CallInd { .. } => {
+                    if let Some(next) = self.call_effect(s, j, m, f, opts) {
+                        out.push(next);
+                    }
+                }
+                Jmp::CallOther { .. } => f.odd_shape = true,
+            }
+        }
+    }
+
+    /// Path-wise explicit-state search from the return site of a source.
+    fn search(&self, src: &SourceSite, opts: &Opts) -> Found {
+        let sm = &self.subs[src.sub];
+        let mut f = Found { m_end: vec![0; sm.term.term.blocks.len()], ..Default::default() };
+        let Some(start) = src.ret_blk else { return f };
+        if src.ret_mask == 0 {
+            return f;
+        }
+        let mut seen: HashSet<(usize, u64)> = HashSet::new();
+        let mut queue: Vec<(usize, u64)> = vec![(start, src.ret_mask)];
+        seen.insert((start, src.ret_mask));
+        let mut head = 0;
+        let mut next = Vec::new();
+        while head < queue.len() {
+            let (b, m) = queue[head];
+            head += 1;
+            let blk = &sm.term.term.blocks[b];
+            let m_end = self.block_defs(blk, m, &mut f);
+            if m_end == 0 {
+                continue;
+            }
+            f.m_end[b] |= m_end;
+            next.clear();
+            self.block_jumps(src.sub, b, m_end, &mut f, opts, &mut next);
+            for st in next.iter() {
+                if st.1 == 0 {
+                    continue;
+                }
+                if seen.insert(*st) {
+                    queue.push(*st);
+                } else {
+                    f.revisits += 1;
+                }
+            }
+            if queue.len() > MAX_STATES {
+                f.capped = true;
+                break;
+            }
+        }
+        f.states = queue.len();
+        f
+    }
+
+    /// Blocks of the source's sub that control can reach from the return site (ignoring taint).
+    fn reachable_blocks(&self, src: &SourceSite) -> Vec<usize> {
+        let Some(start) = src.ret_blk else { return vec![] };
+        let n = self.subs[src.sub].term.term.blocks.len();
+        let mut seen = vec![false; n];
+        let mut order = vec![start];
+        seen[start] = true;
+        let mut head = 0;
+        while head < order.len() {
+            let b = order[head];
+            head += 1;
+            for s in self.flow_succs_syntactic(src.sub, b) {
+                if !seen[s] {
+                    seen[s] = true;
+                    order.push(s);
+                }
+            }
+        }
+        order
+    }
+
+    /// Like `flow_succs` but a call passes whenever it has a return site (over-approximation used for the
+    /// acyclicity test only).
+    fn flow_succs_syntactic(&self, s: usize, b: usize) -> Vec<usize> {
+        let sm = &self.subs[s];
+        let blk = &sm.term.term.blocks[b];
+        let mut out = Vec::new();
+        for j in &blk.term.jmps {
+            match &j.term {
+                Jmp::Branch(t) | Jmp::CBranch { target: t, .. } => out.extend(sm.blk_ix.get(t)),
+                Jmp::BranchInd(_) => blk.term.indirect_jmp_targets.iter().for_each(|t| out.extend(sm.blk_ix.get(t))),
+                Jmp::Call { return_: Some(r), .. } | Jmp::CallInd { return_: Some(r), .. } => out.extend(sm.blk_ix.get(r)),
+                _ => (),
+            }
+        }
+        out
+    }
+
+    /// Whole-program block graph as the analyser links it (jumps, call -> callee entry, callee return blocks ->
+    /// every return site of calls to it, call -> return site). Returns for every (sub, block) whether it lies
+    /// on a cycle.
+    fn on_cycle(&self) -> Vec<Vec<bool>> {
+        let offs: Vec<usize> = self
+            .subs
+            .iter()
+            .scan(0usize, |acc, s| {
+                let o = *acc;
+                *acc += s.term.term.blocks.len();
+                Some(o)
+            })
+            .collect();
+        let total: usize = self.subs.iter().map(|s| s.term.term.blocks.len()).sum();
+        let mut adj: Vec<Vec<usize>> = vec![Vec::new(); total];
+        // return sites per callee
+        let mut ret_sites: Vec<Vec<usize>> = vec![Vec::new(); self.subs.len()];
+        for (s, sm) in self.subs.iter().enumerate() {
+            for (b, blk) in sm.term.term.blocks.iter().enumerate() {
+                for x in self.flow_succs_syntactic(s, b) {
+                    adj[offs[s] + b].push(offs[s] + x);
+                }
+                for j in &blk.term.jmps {
+                    if let Jmp::Call { target, return_ } = &j.term {
+                        if let Some(c) = self.sub_ix.get(target) {
+                            if !self.subs[*c].term.term.blocks.is_empty() {
+                                adj[offs[s] + b].push(offs[*c]);
+                            }
+                            if let Some(r) = return_.as_ref().and_then(|r| sm.blk_ix.get(r)) {
+                                ret_sites[*c].push(offs[s] + r);
+                            }
+                        }
+                    }
+                }
+            }
+        }
+        for (s, sm) in self.subs.iter().enumerate() {
+            for (b, blk) in sm.term.term.blocks.iter().enumerate() {
+                if blk.term.jmps.iter().any(|j| matches!(j.term, Jmp::Return(_))) {
+                    for r in &ret_sites[s] {
+                        adj[offs[s] + b].push(*r);
+                    }
+                }
+            }
+        }
+        // a node is on a cycle iff it can reach itself (graphs are tiny: plain DFS per node)
+        let mut res: Vec<Vec<bool>> = self.subs.iter().map(|s| vec![false; s.term.term.blocks.len()]).collect();
+        for (s, sm) in self.subs.iter().enumerate() {
+            for b in 0..sm.term.term.blocks.len() {
+                let me = offs[s] + b;
+                let mut seen = vec![false; total];
+                let mut stack: Vec<usize> = adj[me].clone();
+                while let Some(x) = stack.pop() {
+                    if x == me {
+                        res[s][b] = true;
+                        break;
+                    }
+                    if !seen[x] {
+                        seen[x] = true;
+                        stack.extend(adj[x].iter().copied());
+                    }
+                }
+            }
+        }
+        res
+    }
+
+    /// Union-merging variant, blocks in topological order; `None` if the region reachable from the source is
+    /// not acyclic in the interprocedural block graph. Result: is a sink reached.
+    fn merged_acyclic(&self, src: &SourceSite, on_cycle: &[Vec<bool>]) -> Option<bool> {
+        let start = src.ret_blk?;
+        let reach = self.reachable_blocks(src);
+        if reach.iter().any(|b| on_cycle[src.sub][*b]) {
+            return None;
+        }
+        let n = self.subs[src.sub].term.term.blocks.len();
+        // Kahn on the reachable region
+        let mut in_reach = vec![false; n];
+        reach.iter().for_each(|b| in_reach[*b] = true);
+        let mut indeg = vec![0usize; n];
+        for b in &reach {
+            for s in self.flow_succs_syntactic(src.sub, *b) {
+                indeg[s] += 1;
+            }
+        }
+        let mut ready: Vec<usize> = reach.iter().copied().filter(|b| indeg[*b] == 0).collect();
+        let mut value = vec![0u64; n];
+        value[start] = src.ret_mask;
+        let opts = Opts { extra_kill: None, noret_call_sinks: false };
+        let mut out = Vec::new();
+        while let Some(b) = ready.pop() {
+            let mut f = Found::default();
+            if value[b] != 0 {
+                let m_end = self.block_defs(&self.subs[src.sub].term.term.blocks[b], value[b], &mut f);
+                if f.flagged() {
+                    return Some(true);
+                }
+                if m_end != 0 {
+                    out.clear();
+                    self.block_jumps(src.sub, b, m_end, &mut f, &opts, &mut out);
+                    if f.flagged() {
+                        return Some(true);
+                    }
+                    for (t, m) in out.iter() {
+                        value[*t] |= *m;
+                    }
+                }
+            }
+            for s in self.flow_succs_syntactic(src.sub, b) {
+                indeg[s] -= 1;
+                if indeg[s] == 0 && in_reach[s] {
+                    ready.push(s);
+                }
+            }
+        }
+        Some(false)
+    }
+}
+
+// ---------------------------------------------------------------------------------------------
+// Driving the real pipeline
+
+/// Where the pipeline panicked.
+#[derive(Debug)]
+pub enum PipelineError {
+    /// CFG construction, function signatures or pointer inference (prerequisites of the check)
+    Prerequisite(String),
+    /// inside the CWE476 module
+    Module(String),
+}
+
+/// Run the analysis pipeline exactly like the CLI does after disassembly (the project is already normalised).
+pub fn run_pipeline(project: &Project) -> Result<Vec<CweWarning>, PipelineError> {
+    let config = shipped_config();
+    let binary: Vec<u8> = Vec::new();
+    let (graph, _logs) = guard(|| get_program_cfg_with_logs(&project.program)).map_err(PipelineError::Prerequisite)?;
+    let results = AnalysisResults::new(&binary, &graph, project);
+    let (sigs, _logs) = guard(|| results.compute_function_signatures()).map_err(PipelineError::Prerequisite)?;
+    let results = results.with_function_signatures(Some(&sigs));
+    let pi = guard(|| results.compute_pointer_inference(&config["Memory"], false)).map_err(PipelineError::Prerequisite)?;
+    let results = results.with_pointer_inference(Some(&pi));
+    let module = cwe_checker_lib::get_modules().into_iter().find(|m| m.name == "CWE476").expect("module CWE476 registered");
+    let (_logs, cwes) = guard(|| (module.run)(&results, &config[module.name])).map_err(PipelineError::Module)?;
+    Ok(cwes)
+}
+
+pub const KNOWN_JOIN_MERGE: &str = "c15-join-merge";
+pub const KNOWN_NORET_CALL: &str = "c15-call-without-return-site";
+pub const KNOWN_PI_PANIC: &str = "c15-pi-panic-nested-parameter-without-parent-object";
+
+fn program_size(p: &Project) -> u64 {
+    p.program.term.subs.values().map(|s| s.term.blocks.iter().map(|b| 1 + b.term.defs.len() as u64 + b.term.jmps.len() as u64).sum::<u64>()).sum()
+}
+
+/// Check one normalised project. Returns false if the case was not decided.
+pub fn check_normalized(project: &Project, rep: &mut Report, want_sample: bool) -> bool {
+    let configured = configured_symbols();
+    let case = || json!({"project": project_to_json(project)});
+    let size = program_size(project);
+    let model = match Model::new(project, configured) {
+        Ok(m) => m,
+        Err(e) => {
+            rep.inconclusive(&format!("model:{e}"));
+            return false;
+        }
+    };
+    let sources = model.sources();
+    if sources.is_empty() {
+        rep.inconclusive("no-source-after-normalisation");
+        return false;
+    }
+    // reference searches
+    let strict = Opts { extra_kill: None, noret_call_sinks: true };
+    let mut p: Vec<Found> = Vec::new();
+    for s in &sources {
+        p.push(model.search(s, &strict));
+    }
+    if p.iter().any(|f| f.capped) {
+        rep.inconclusive("state-cap");
+        return false;
+    }
+    if p.iter().any(|f| !f.tainted_stores.is_empty()) {
+        rep.inconclusive("tainted-value-stored-after-normalisation(outside-the-statement's-domain)");
+        return false;
+    }
+    if p.iter().any(|f| f.odd_shape) {
+        rep.inconclusive("block-shape-outside-domain");
+        return false;
+    }
+    if p.iter().any(|f| f.doubtful_callee) {
+        rep.inconclusive("callee-with-unreachable-return-instruction");
+        return false;
+    }
+    // the implementation
+    let warnings = match run_pipeline(project) {
+        Ok(w) => w,
+        Err(PipelineError::Module(msg)) => {
+            rep.violation(
+                format!("cwe476:panic:{}", panic_site(&msg)),
+                None,
+                format!("the CWE476 module panicked: {msg}\n{}", show_program(&project.program.term)),
+                case(),
+                size,
+            );
+            return true;
+        }
+        Err(PipelineError::Prerequisite(msg)) => {
+            // Known finding (not a defect of the check itself): State::add_param stores a nested parameter into a
+            // parent object that was never created.
+            let known = msg.contains("Abstract object does not exist") && msg.contains("pointer_inference/state/mod.rs");
+            rep.obs(if known { "prerequisite-panic:known" } else { "prerequisite-panic:other" });
+            rep.violation(
+                format!("prerequisite:panic:{}", panic_site(&msg)),
+                if known { Some(KNOWN_PI_PANIC) } else { None },
+                format!("an analysis the check depends on (CFG / function signatures / pointer inference) panicked, the check cannot run: {msg}\n{}", show_program(&project.program.term)),
+                case(),
+                size,
+            );
+            return true;
+        }
+    };
+    let mut interesting = false;
+    // well-formedness of every warning
+    let mut got: BTreeMap<String, &CweWarning> = BTreeMap::new();
+    for w in &warnings {
+        let ok_shape = w.name == "CWE476" && w.addresses.len() == 2 && w.tids.len() == 2 && w.symbols.len() == 1;
+        let src = if ok_shape { sources.iter().position(|s| s.tid == w.tids[0]) } else { None };
+        match src {
+            None => {
+                rep.violation("warning:not-a-source-call", None, format!("warning does not name a call to a configured symbol as its source: {w:?}\n{}", show_program(&project.program.term)), case(), size);
+                continue;
+            }
+            Some(i) => {
+                let s = &sources[i];
+                if w.addresses[0] != s.address || w.symbols[0] != s.symbol {
+                    rep.violation("warning:wrong-source-address-or-symbol", None, format!("warning for source {} carries address {:?} / symbol {:?}, expected {} / {}", s.tid, w.addresses[0], w.symbols[0], s.address, s.symbol), case(), size);
+                }
+                if got.insert(s.tid.clone(), w).is_some() {
+                    rep.violation("warning:duplicate-source", None, format!("two warnings for the same source call {}", s.tid), case(), size);
+                }
+                // the reported access must be a sink the reference search reaches from this source
+                if p[i].flagged() && !p[i].sinks.iter().any(|(t, _)| *t == w.tids[1]) {
+                    rep.violation(
+                        "warning:reported-location-is-not-a-sink",
+                        None,
+                        format!("warning for source {} reports {} as the access, the reference search reaches only {:?}\n{}", s.tid, w.tids[1], p[i].sinks, show_program(&project.program.term)),
+                        case(),
+                        size,
+                    );
+                }
+            }
+        }
+    }
+    let on_cycle = model.on_cycle();
+    for (i, s) in sources.iter().enumerate() {
+        rep.eval();
+        let f = &p[i];
+        let expected = f.flagged();
+        let observed = got.contains_key(&s.tid);
+        // bookkeeping
+        if f.flagged() || f.kills_taken + f.kills_untaken + f.drops > 0 {
+            interesting = true;
+        }
+        for (_, k) in &f.sinks {
+            rep.obs(&format!("sink:{k}"));
+        }
+        rep.obs(if expected { "source:flagged" } else { "source:clean" });
+        if f.kills_taken > 0 {
+            rep.obs("path-ended-by:check-on-taken-branch");
+        }
+        if f.kills_untaken > 0 {
+            rep.obs("path-ended-by:check-on-untaken-branch");
+        }
+        if f.drops > 0 {
+            rep.obs("taint-dropped-at-call");
+        }
+        if f.overwrites > 0 {
+            rep.obs("taint-overwritten");
+        }
+        if f.revisits > 0 {
+            rep.obs("state-revisited(loop-or-join)");
+        }
+        if s.ret_blk.is_none() {
+            rep.obs("source:no-return-site");
+        }
+        if expected == observed {
+            // self-check of the discriminator model (never a verdict): where the merged variant claims to be
+            // exact it has to reproduce the implementation's answer
+            if let Some(m) = model.merged_acyclic(s, &on_cycle) {
+                rep.obs("discriminator-self-check:merged-variant-evaluated");
+                if m != observed {
+                    rep.obs("discriminator-self-check:merged-variant-differs-from-implementation");
+                    rep.note(format!("merged variant claims exactness but differs from the implementation on a source where implementation and reference agree ({})", s.tid));
+                }
+            }
+            continue;
+        }
+        let describe = |f: &Found| {
+            format!(
+                "source call {} ({}) in sub {}: reference search: sinks {:?}, {} states, paths ended by checks {}/{} (taken/untaken)\n{}",
+                s.tid,
+                s.symbol,
+                model.subs[s.sub].term.term.name,
+                f.sinks,
+                f.states,
+                f.kills_taken,
+                f.kills_untaken,
+                show_program(&project.program.term)
+            )
+        };
+        if observed && !expected {
+            rep.violation(
+                "extra:warning-without-reachable-sink",
+                None,
+                format!("CWE476 warns ({:?}) but no sink state is reachable. {}", got[&s.tid].tids, describe(f)),
+                case(),
+                size,
+            );
+            continue;
+        }
+        // missed: classify
+        // (1) known finding: the only sinks are extern/indirect calls without return site
+        let relaxed = model.search(s, &Opts { extra_kill: None, noret_call_sinks: false });
+        if !relaxed.flagged() {
+            rep.obs("missed:explained-by-call-without-return-site");
+            rep.violation(
+                "missed:only-calls-without-return-site".to_string(),
+                Some(KNOWN_NORET_CALL),
+                format!("no CWE476 warning; every sink the reference search reaches is an extern or indirect call without return site that receives the value as a parameter. {}", describe(f)),
+                case(),
+                size,
+            );
+            continue;
+        }
+        // (2) known finding: taint sets are merged at joins
+        let lower = model.search(s, &Opts { extra_kill: Some(&f.m_end), noret_call_sinks: false });
+        let merged = model.merged_acyclic(s, &on_cycle);
+        let known = match merged {
+            Some(m) => !m && !lower.flagged(),
+            None => !lower.flagged(),
+        };
+        if let Some(m) = merged {
+            if lower.flagged() && !m {
+                rep.note("harness self-check failed: lower bound flags a source that the merged variant does not");
+            }
+        }
+        rep.obs(if known { "missed:explained-by-join-merge" } else { "missed:unexplained" });
+        rep.violation(
+            if known { "missed:join-merged".to_string() } else { format!("missed:{}", relaxed.sinks[0].1) },
+            if known { Some(KNOWN_JOIN_MERGE) } else { None },
+            format!(
+                "no CWE476 warning although a sink state is reachable path-wise (merged variant: {:?}, lower bound flags: {}). union of tainted variables per block end: {:?}. {}",
+                merged,
+                lower.flagged(),
+                f.m_end.iter().map(|m| model.names(*m)).collect::<Vec<_>>(),
+                describe(f)
+            ),
+            case(),
+            size,
+        );
+    }
+    if interesting {
+        rep.nontrivial(fp_of(&project.program));
+    }
+    let nblocks: usize = project.program.term.subs.values().map(|s| s.term.blocks.len()).sum();
+    rep.obs(&format!("blocks:{}", (nblocks / 4) * 4));
+    rep.obs(&format!("sources:{}", sources.len()));
+    if want_sample {
+        rep.sample(json!({
+            "program": show_program(&project.program.term),
+            "sources": sources.iter().enumerate().map(|(i, s)| json!({"call": s.tid, "symbol": s.symbol, "expected_flagged": p[i].flagged(), "reference_sinks": p[i].sinks.iter().map(|(t, k)| format!("{t} ({k})")).collect::<Vec<_>>(), "observed_warning": got.get(&s.tid).map(|w| w.tids.clone())})).collect::<Vec<_>>(),
+        }));
+    }
+    true
+}
+
+
+// ---------------------------------------------------------------------------------------------
+// Witness minimisation
+
+fn referenced_tids(p: &Project) -> BTreeSet<Tid> {
+    let mut out = BTreeSet::new();
+    for sub in p.program.term.subs.values() {
+        for b in &sub.term.blocks {
+            out.extend(b.term.indirect_jmp_targets.iter().cloned());
+            for j in &b.term.jmps {
+                match &j.term {
+                    Jmp::Branch(t) | Jmp::CBranch { target: t, .. } => {
+                        out.insert(t.clone());
+                    }
+                    Jmp::Call { target, return_ } => {
+                        out.insert(target.clone());
+                        out.extend(return_.iter().cloned());
+                    }
+                    Jmp::CallInd { return_, .. } | Jmp::CallOther { return_, .. } => out.extend(return_.iter().cloned()),
+                    _ => (),
+                }
+            }
+        }
+    }
+    out
+}
+
+/// One-step reductions of a project, biggest first.
+fn reductions(p: &Project) -> Vec<Project> {
+    let mut out = Vec::new();
+    let refs = referenced_tids(p);
+    for t in p.program.term.subs.keys() {
+        if !refs.contains(t) && p.program.term.subs.len() > 1 {
+            let mut q = p.clone();
+            q.program.term.subs.remove(t);
+            q.program.term.entry_points.remove(t);
+            out.push(q);
+        }
+    }
+    for t in p.program.term.extern_symbols.keys() {
+        if !refs.contains(t) {
+            let mut q = p.clone();
+            q.program.term.extern_symbols.remove(t);
+            out.push(q);
+        }
+    }
+    for (t, sub) in p.program.term.subs.iter() {
+        for (i, b) in sub.term.blocks.iter().enumerate() {
+            if i > 0 && !refs.contains(&b.tid) {
+                let mut q = p.clone();
+                q.program.term.subs.get_mut(t).unwrap().term.blocks.remove(i);
+                out.push(q);
+            }
+        }
+    }
+    for (t, sub) in p.program.term.subs.iter() {
+        for (i, b) in sub.term.blocks.iter().enumerate() {
+            let mut alts: Vec<Vec<Term<Jmp>>> = Vec::new();
+            if !b.term.jmps.is_empty() {
+                alts.push(Vec::new());
+            }
+            if b.term.jmps.len() == 2 {
+                alts.push(vec![b.term.jmps[1].clone()]);
+                if let Jmp::CBranch { target, .. } = &b.term.jmps[0].term {
+                    alts.push(vec![Term { tid: b.term.jmps[0].tid.clone(), term: Jmp::Branch(target.clone()) }]);
+                }
+            }
+            if b.term.jmps.len() == 1 {
+                match &b.term.jmps[0].term {
+                    Jmp::Call { return_: Some(r), .. } | Jmp::CallInd { return_: Some(r), .. } => {
+                        alts.push(vec![Term { tid: b.term.jmps[0].tid.clone(), term: Jmp::Branch(r.clone()) }]);
+                    }
+                    _ => (),
+                }
+            }
+            for a in alts {
+                let mut q = p.clone();
+                let blk = &mut q.program.term.subs.get_mut(t).unwrap().term.blocks[i];
+                blk.term.jmps = a;
+                blk.term.indirect_jmp_targets.clear();
+                out.push(q);
+            }
+        }
+    }
+    for (t, sub) in p.program.term.subs.iter() {
+        for (i, b) in sub.term.blocks.iter().enumerate() {
+            for k in 0..b.term.defs.len() {
+                let mut q = p.clone();
+                q.program.term.subs.get_mut(t).unwrap().term.blocks[i].term.defs.remove(k);
+                out.push(q);
+            }
+        }
+    }
+    out
+}
+
+/// Greedy minimisation of a violating project: keeps a reduction iff the same violation signature is reported.
+pub fn shrink(project: &Project, signature: &str, mut budget: usize) -> Project {
+    let mut cur = project.clone();
+    loop {
+        let mut progress = false;
+        for cand in reductions(&cur) {
+            if budget == 0 {
+                return cur;
+            }
+            budget -= 1;
+            let mut r = Report::new();
+            let ok = guard(|| check_normalized(&cand, &mut r, false)).is_ok();
+            if ok && r.violations.contains_key(signature) {
+                cur = cand;
+                progress = true;
+                break;
+            }
+        }
+        if !progress {
+            return cur;
+        }
+    }
+}
+
+/// `check_normalized` plus minimisation of the first violation of every signature seen by this shard.
+pub fn check_and_minimise(project: &Project, rep: &mut Report, want_sample: bool, budget: usize) {
+    let mut tmp = Report::new();
+    check_normalized(project, &mut tmp, want_sample);
+    let viols = std::mem::take(&mut tmp.violations);
+    rep.merge(tmp);
+    for (sig, v) in viols {
+        if !rep.violations.contains_key(&sig) && budget > 0 {
+            let small = shrink(project, &sig, budget);
+            let mut r2 = Report::new();
+            check_normalized(&small, &mut r2, false);
+            if let Some(v2) = r2.violations.remove(&sig) {
+                rep.violations.insert(sig, v2);
+                continue;
+            }
+        }
+        match rep.violations.get(&sig) {
+            Some(old) if old.size <= v.size => (),
+            _ => {
+                rep.violations.insert(sig, v);
+            }
+        }
+    }
+}
+
+
+// ---------------------------------------------------------------------------------------------
+// Hand-written minimal witnesses of the known findings (replay case `{"witness": "<key>"}`)
+
+pub fn builtin_witness(key: &str) -> Option<Project> {
+    let t = |n: u32, p: &str| tid(&format!("{p}_{n:x}"), &format!("{n:08x}"));
+    let b = |i: u32| tid(&format!("blk_main_{i}"), &format!("{:08x}", 0x100000 + 0x1000 * i));
+    let malloc = ext_sym("malloc", vec![areg("RDI")], &["RAX"], false, "__stdcall");
+    let free = ext_sym("free", vec![areg("RDI")], &[], false, "__stdcall");
+    let call_malloc = |n: u32, ret: Tid| jmp(t(n, "call"), Jmp::Call { target: malloc.tid.clone(), return_: Some(ret) });
+    let blocks = match key {
+        // p = malloc(); if (c) { q = p; p = 0 }  if (q == 0) ... else *p      (q is the value only on the first arm)
+        KNOWN_JOIN_MERGE => vec![
+            blk(b(0), vec![], vec![call_malloc(1, b(1))]),
+            blk(b(1), vec![], vec![jmp(t(2, "jmp"), Jmp::CBranch { target: b(2), condition: e_var(&var("CF", 1)) }), jmp(t(3, "jmp"), Jmp::Branch(b(3)))]),
+            blk(b(2), vec![assign(t(4, "def"), reg("RCX"), e_reg("RAX")), assign(t(5, "def"), reg("RAX"), e_const(0, 8))], vec![jmp(t(6, "jmp"), Jmp::Branch(b(4)))]),
+            blk(b(3), vec![], vec![jmp(t(7, "jmp"), Jmp::Branch(b(4)))]),
+            blk(
+                b(4),
+                vec![],
+                vec![
+                    jmp(t(8, "jmp"), Jmp::CBranch { target: b(5), condition: e_bin(BinOpType::IntEqual, e_reg("RCX"), e_const(0, 8)) }),
+                    jmp(t(9, "jmp"), Jmp::Branch(b(6))),
+                ],
+            ),
+            blk(b(5), vec![], vec![]),
+            blk(b(6), vec![load(t(10, "def"), reg("RDX"), e_reg("RAX"))], vec![]),
+        ],
+        // p = malloc(); free(p) as a call without return site (tail call / call the disassembler gave no fall-through)
+        KNOWN_NORET_CALL => vec![
+            blk(b(0), vec![], vec![call_malloc(1, b(1))]),
+            blk(b(1), vec![assign(t(2, "def"), reg("RDI"), e_reg("RAX"))], vec![jmp(t(3, "call"), Jmp::Call { target: free.tid.clone(), return_: None })]),
+        ],
+        // pointer chain starting at the return-address slot of the entry stack frame
+        KNOWN_PI_PANIC => vec![
+            blk(
+                b(0),
+                vec![load(t(1, "def"), reg("RAX"), e_reg("RSP")), load(t(2, "def"), reg("RAX"), e_reg_off("RAX", 0x18))],
+                vec![jmp(t(3, "jmp"), Jmp::Branch(b(1)))],
+            ),
+            blk(b(1), vec![load(t(4, "def"), reg("RAX"), e_bin(BinOpType::IntAdd, e_reg("RAX"), e_bin(BinOpType::IntMult, e_reg("RCX"), e_const(8, 8))))], vec![call_malloc(5, b(2))]),
+            blk(b(2), vec![], vec![]),
+        ],
+        _ => return None,
+    };
+    let main = sub(tid("sub_main", "00100000"), "main", blocks);
+    let entry = main.tid.clone();
+    let mut project = project_x64(program(vec![main], vec![malloc, free], Some(entry)));
+    project.calling_conventions.insert("__fastcall".to_string(), cconv_ms());
+    let _ = project.normalize_basic();
+    let _ = project.normalize_optimize();
+    Some(project)
+}
+
+/// Domain guard of the statement: replace the value of every store that would store a tainted value.
+fn repair_tainted_stores(project: &mut Project) -> Result<usize, String> {
+    let configured = configured_symbols();
+    let mut bad: BTreeSet<Tid> = BTreeSet::new();
+    {
+        let model = Model::new(project, configured)?;
+        let strict = Opts { extra_kill: None, noret_call_sinks: true };
+        for s in model.sources() {
+            let f = model.search(&s, &strict);
+            if f.capped {
+                return Err("state-cap".into());
+            }
+            bad.extend(f.tainted_stores);
+        }
+    }
+    let n = bad.len();
+    if n > 0 {
+        for sub in project.program.term.subs.values_mut() {
+            for b in sub.term.blocks.iter_mut() {
+                for d in b.term.defs.iter_mut() {
+                    if bad.contains(&d.tid) {
+                        if let Def::Store { value, .. } = &mut d.term {
+                            let w = u64::from(value.bytesize()) as u32;
+                            *value = e_const(0, w);
+                        }
+                    }
+                }
+            }
+        }
+    }
+    Ok(n)
+}
+
+#[derive(Clone, Copy, PartialEq, Eq, Debug)]
+pub enum Workload {
+    Random,
+    Diamond,
+    Cconv,
+}
+
+pub fn gen_case(rng: &mut Rng, gc: &GenCfg, workload: Workload, rep: &mut Report) -> Option<Project> {
+    let mut project = match guard(|| match workload {
+        Workload::Diamond => gen_diamond(rng),
+        Workload::Cconv => gen_cconv_template(rng),
+        Workload::Random => gen_project(rng, gc),
+    }) {
+        Ok(p) => p,
+        Err(m) => {
+            rep.inconclusive(&format!("generator-panic:{}", panic_site(&m)));
+            return None;
+        }
+    };
+    match repair_tainted_stores(&mut project) {
+        Ok(n) => {
+            if n > 0 {
+                rep.obs("generator:stores-of-tainted-values-rewritten");
+            }
+        }
+        Err(e) => {
+            rep.inconclusive(&format!("generator:{e}"));
+            return None;
+        }
+    }
+    // normalisation as the CLI performs it
+    match guard(|| {
+        let _ = project.normalize_basic();
+        let _ = project.normalize_optimize();
+        project
+    }) {
+        Ok(p) => Some(p),
+        Err(m) => {
+            rep.violation(format!("normalize:panic:{}", panic_site(&m)), None, format!("normalisation panicked: {m}"), json!({"note": "raw program not kept"}), 1000);
+            None
+        }
+    }
+}
+
+fn run(cfg: &Cfg) -> Report {
+    for s in source_pool() {
+        assert!(configured_symbols().contains(&s.name), "source symbol {} not in the shipped CWE476 list", s.name);
+    }
+    let shards = cfg.tier.pick(128usize, 1024usize);
+    let per_shard = cfg.tier.pick(150usize, 300usize);
+    par_shards(cfg, "c15", shards, |idx, rng, rep| {
+        let workload = match idx % 8 {
+            5 => Workload::Diamond,
+            7 => Workload::Cconv,
+            _ => Workload::Random,
+        };
+        rep.obs(&format!("workload-shards:{workload:?}"));
+        let gc = match idx % 8 {
+            0 => GenCfg { max_blocks: 4, max_defs: 3, pool: R8, fastcall_of_8: 2 },
+            1 => GenCfg { max_blocks: 6, max_defs: 3, pool: R8, fastcall_of_8: 2 },
+            2 => GenCfg { max_blocks: 7, max_defs: 2, pool: R_DENSE, fastcall_of_8: 2 },
+            3 => GenCfg { max_blocks: 6, max_defs: 3, pool: R_CCONV, fastcall_of_8: 5 },
+            4 => GenCfg { max_blocks: 9, max_defs: 3, pool: R8, fastcall_of_8: 2 },
+            6 => GenCfg { max_blocks: 9, max_defs: 3, pool: R_DENSE, fastcall_of_8: 2 },
+            _ => GenCfg { max_blocks: 5, max_defs: 2, pool: R_CCONV, fastcall_of_8: 4 },
+        };
+        for i in 0..per_shard {
+            let Some(project) = gen_case(rng, &gc, workload, rep) else { continue };
+            check_and_minimise(&project, rep, idx < 6 && i == 0, 250);
+        }
+    })
+}
+
+fn replay(_cfg: &Cfg, case: &Value) -> Report {
+    let mut rep = Report::new();
+    if let Some(key) = case["witness"].as_str() {
+        match guard(|| builtin_witness(key)) {
+            Ok(Some(project)) => {
+                check_normalized(&project, &mut rep, false);
+            }
+            Ok(None) => rep.note(format!("unknown built-in witness {key}")),
+            Err(m) => rep.note(format!("building the witness {key} panicked: {m}")),
+        }
+        return rep;
+    }
+    match project_from_json(&case["project"]) {
+        Ok(project) => {
+            check_normalized(&project, &mut rep, false);
+        }
+        Err(e) => rep.note(format!("cannot parse replay case: {e}")),
+    }
+    rep
 }
